@@ -40,6 +40,10 @@ type RateCase struct {
 	Health    bool   `json:"health"`     // interleave /internal/health requests
 	Offered   int    `json:"offered"`    // requests per sender
 	GapUs     int    `json:"gap_us"`     // pause between a sender's requests
+	// CleanupMs: server.rate_limits.cleanup_interval (0 = shipped default). PauseMs: every sender
+	// goes idle for this long after half of its requests (a client that comes back later)
+	CleanupMs int `json:"cleanup_ms,omitempty"`
+	PauseMs   int `json:"pause_ms,omitempty"`
 }
 
 const rmodel = "vm-c17"
@@ -70,6 +74,9 @@ func bootRate(c RateCase) (*rateRig, error) {
 			cfg.Server.RateLimits.GlobalRequestsPerMinute = c.GlobalMin
 			cfg.Server.RateLimits.HealthRequestsPerMinute = 6000
 			cfg.Server.RateLimits.TrustProxyHeaders = false
+			if c.CleanupMs > 0 {
+				cfg.Server.RateLimits.CleanupInterval = time.Duration(c.CleanupMs) * time.Millisecond
+			}
 		}})
 	if err != nil {
 		be.Close()
@@ -104,6 +111,9 @@ func runRate(c RateCase) []ev.Violation {
 			cl := stack.Client(c.KeepAlive, 10*time.Second)
 			<-start
 			for i := 0; i < c.Offered; i++ {
+				if c.PauseMs > 0 && i == c.Offered/2 {
+					time.Sleep(time.Duration(c.PauseMs) * time.Millisecond)
+				}
 				route := c.Route
 				if route == "mixed" {
 					route = []string{"proxy", "provider", "anthropic", "proxy-healthlike"}[(k+i)%4]
@@ -210,6 +220,20 @@ func runRate(c RateCase) []ev.Violation {
 }
 
 func genRate(t *rapid.T) RateCase {
+	if rapid.IntRange(0, 3).Draw(t, "comeback") == 0 {
+		// a slow refill, a short clean-up interval and clients that pause for longer than it
+		return RateCase{
+			Engine:    rapid.SampledFrom([]string{"sherpa", "olla"}).Draw(t, "engine"),
+			PerMin:    rapid.SampledFrom([]int{30, 60}).Draw(t, "permin"),
+			Burst:     rapid.SampledFrom([]int{3, 10}).Draw(t, "burst"),
+			Conns:     rapid.SampledFrom([]int{1, 2, 4}).Draw(t, "conns"),
+			KeepAlive: rapid.Bool().Draw(t, "keepalive"),
+			Route:     rapid.SampledFrom([]string{"proxy", "mixed"}).Draw(t, "route"),
+			Offered:   rapid.IntRange(30, 50).Draw(t, "offered"),
+			CleanupMs: rapid.SampledFrom([]int{100, 300}).Draw(t, "cleanup"),
+			PauseMs:   rapid.SampledFrom([]int{700, 1200}).Draw(t, "pause"),
+		}
+	}
 	return RateCase{
 		Engine:    rapid.SampledFrom([]string{"sherpa", "olla"}).Draw(t, "engine"),
 		PerMin:    rapid.SampledFrom([]int{300, 600, 1200}).Draw(t, "permin"),
@@ -410,7 +434,7 @@ var _ = net.Dial
 func TestC17(t *testing.T) {
 	defer stopSizeRigs()
 	defer stopFirstRigs()
-	rec.SetRule("rate: one stack per case with fast limits (300..1200/min, burst 1..10, optional global limit); 1..8 concurrent senders each with its own connection(s), keep-alive on/off, proxy/provider/Anthropic/mixed routes (including proxied paths that end in /internal/health), interleaved /internal/health; admitted = requests that reached the recording backend, judged against burst + rate x t + 1 over the over-estimated window [first send, last receive]; refusals must be 429. first: 2..12 requests fired at the same instant over pre-established connections from a client address the limiter has never seen (a fresh 127.a.b.c per case), limit 1/min, burst 1..3: at most burst may be admitted. size: bodies at limit-1, limit, limit+1, 5x limit with Content-Length or chunked framing against max_body_size {1 KiB, 64 KiB} and Anthropic max_message_size {4 KiB, 1 MiB}. non-trivial = >=3x the allowed volume offered over >=2 connections (rate) / chunked body above the limit (size); distinct by case")
+	rec.SetRule("rate: one stack per case with fast limits (300..1200/min, burst 1..10, optional global limit); 1..8 concurrent senders each with its own connection(s), keep-alive on/off, proxy/provider/Anthropic/mixed routes (including proxied paths that end in /internal/health), interleaved /internal/health; a quarter of the cases use a slow refill, a short cleanup_interval and senders that pause for longer than it; admitted = requests that reached the recording backend, judged against burst + rate x t + 1 over the over-estimated window [first send, last receive]; refusals must be 429. first: 2..12 requests fired at the same instant over pre-established connections from a client address the limiter has never seen (a fresh 127.a.b.c per case), limit 1/min, burst 1..3: at most burst may be admitted. size: bodies at limit-1, limit, limit+1, 5x limit with Content-Length or chunked framing against max_body_size {1 KiB, 64 KiB} and Anthropic max_message_size {4 KiB, 1 MiB}. non-trivial = >=3x the allowed volume offered over >=2 connections (rate) / chunked body above the limit (size); distinct by case")
 	rec.Assume("rate: all senders share one client IP (127.0.0.1); the admission window is over-estimated, so a slow machine only loosens the bound")
 	if ev.Replay(t, rec, "rate", runRate) || ev.Replay(t, rec, "size", runSize) || ev.Replay(t, rec, "first", runFirst) {
 		return
